@@ -32,7 +32,15 @@ contract("AddingVisitor.visitNormalImport", source=M + "AddingVisitor.visitNorma
              # what the statement provided before, it still provides
              "implies(import_stmt.import_info != import_info, single_plain(import_info) and single_plain(import_stmt.import_info) and "
              "        provides(import_stmt.import_info.names_and_aliases[0][0], import_info.names_and_aliases[0][0]))",
-             "implies(is_none(result) or not val(result), import_stmt.import_info == import_info)"],
+             "implies(is_none(result) or not val(result), import_stmt.import_info == import_info)",
+             # and it IS answered whenever that is the case (otherwise the caller would add a second, redundant statement)
+             "implies(class_of(self.import_info) == class_of(import_info) and "
+             "        ((len(import_info.names_and_aliases) == len(self.import_info.names_and_aliases) and "
+             "          forall(lambda k: implies(0 <= k and k < len(import_info.names_and_aliases), import_info.names_and_aliases[k] == self.import_info.names_and_aliases[k]))) or "
+             "         (single_plain(old(import_info)) and single_plain(self.import_info) and "
+             "          (old(import_info.names_and_aliases)[0][0].startswith(self.import_info.names_and_aliases[0][0] + '.') or "
+             "           self.import_info.names_and_aliases[0][0].startswith(old(import_info.names_and_aliases)[0][0] + '.')))), "
+             "        not is_none(result) and val(result))"],
          note="`import pkg` is covered by an existing `import pkg.mod` and vice versa (the longer one stays) -- but `import ab` does not cover `import a`, and an "
               "aliased `import pkg.mod as m` covers nothing but itself (the import_info property setter is modelled as a plain field store)")
 
@@ -70,7 +78,13 @@ contract("AddingVisitor.visitFromImport", source=M + "AddingVisitor.visitFromImp
              "implies(not is_none(result) and val(result) and not star(self.import_info) and not star(old(import_info)), "
              "        forall(lambda k: implies(0 <= k and k < len(old(import_info.names_and_aliases)), "
              "               import_stmt.import_info.names_and_aliases[k] == old(import_info.names_and_aliases)[k])))",
-             "implies(is_none(result) or not val(result), import_stmt.import_info == import_info)"],
+             "implies(is_none(result) or not val(result), import_stmt.import_info == import_info)",
+             # a from-import of the same module at the same level IS merged (with split_imports: only an identical list counts as already there)
+             "implies(self.import_info.module_name == old(import_info.module_name) and self.import_info.level == old(import_info.level) and "
+             "        (star(old(import_info)) or star(self.import_info) or not split_imports(self.project.prefs)), not is_none(result) and val(result))",
+             "implies(self.import_info.module_name == old(import_info.module_name) and self.import_info.level == old(import_info.level) and "
+             "        not star(old(import_info)) and not star(self.import_info) and split_imports(self.project.prefs), "
+             "        not is_none(result) and val(result) == (self.import_info.names_and_aliases == old(import_info.names_and_aliases)))"],
          loops={1: {"index": "i", "inv": [
              "len(new_pairs) >= len(import_info.names_and_aliases)",
              "forall(lambda k: implies(0 <= k and k < len(import_info.names_and_aliases), new_pairs[k] == import_info.names_and_aliases[k]))",
